@@ -32,6 +32,22 @@ CLAIMED = {
    text="CrossingSign / VertexCrossing / EdgeOrVertexCrossing equal the exact reference on every quadruple and are symmetric; every reachable EdgeCrosser state under RestartAt / ChainCrossingSign / EdgeOrVertexChainCrossing / CrossingSign / EdgeOrVertexCrossing with every argument gives the stateless exact answer for the chain edge.",
    note="Alphabets of 13-24 points (quadruples) and 8-12 points (crosser); the state merge relies on (c, acb) being the only mutable crosser fields.",
    design="DESIGN.md §6 C03"),
+
+ "C04": dict(level="exploration", engine="E3 enum",
+   technique="bounded-exhaustive enumeration: every probe point (vertices, edge points, 1-ulp neighbours, structural points) against every tile of sphere tilings (exactly-once counting needs no oracle) and against an exact crossing-parity reference on every evaluation path; every cyclic ray configuration for the vertex rule",
+   text="Every probe is contained by exactly one tile of each tiling (faces, all cells of levels 1-3, meridian wedges with 42-102 vertices, loop+inverse, polygon+complement); brute force, ContainsPoint before/after the index exists, ContainsPointQuery and the one-loop polygon equal the exact parity of edge crossings on every catalogue loop and probe; containsCenter of every index cell equals the reference.",
+   note="Loops of 3..102 vertices (around the 32-vertex threshold), not 10^4 (DESIGN L2); reference uses exact determinants with the documented perturbation.",
+   design="DESIGN.md §6 C04"),
+ "C06": dict(level="exploration", engine="E3 enum",
+   technique="bounded-exhaustive enumeration: every shape collection of a catalogue x every probe / query edge pair / index cell, against brute force over all edges with exact crossing tests; structural invariants checked directly on a dump of the index",
+   text="Shape contract on every edge id of every shape type; ContainsPointQuery (3 vertex models: Contains, ShapeContains, ContainingShapes), CrossingEdgeQuery.Crossings/CrossingsEdgeMap (both crossing types), polygon/loop cell relations (one-sided) and the index structure (sorted, disjoint, every edge witness listed, containsCenter) equal brute force on every collection.",
+   note="Collections of 1-8 shapes with up to ~250 edges; edge witnesses are asserted only when strictly inside a cell (1e-12 margin) so the check cannot accuse wrongly.",
+   design="DESIGN.md §6 C06"),
+ "C07": dict(level="exploration", engine="E3 enum",
+   technique="bounded-exhaustive enumeration: all ordered pairs over loop and polygon catalogues (nested, crossing, sharing vertices/edges, > hemisphere, multi-cell indexes, inverses), algebraic laws without a reference plus point-set soundness against exact containment on every probe; every subset x input order of nested loop families for the hole rule",
+   text="Intersects symmetric, reflexivity, A∩B iff not complement(A)⊇B, A⊇B iff complement(B)⊇complement(A), polygon==loop answers, Contains/!Intersects sound on all probes, IsHole == parity of enclosing loops, on every pair / subset order of the catalogues.",
+   note="Catalogue of 46-62 loops and 12 polygons; loops up to 100 vertices.",
+   design="DESIGN.md §6 C07"),
 }
 
 PLANNED = {  # not yet claimed: each gets a reason in not_applicable until its check is committed
